@@ -1,0 +1,12 @@
+//go:build verif
+
+package entry
+
+// VerifYield is set by the simulation harness; nil means no-op.
+var VerifYield func(site string)
+
+func verifYield(site string) {
+	if f := VerifYield; f != nil {
+		f(site)
+	}
+}
